@@ -110,3 +110,77 @@ RULES["C09"] = [
   ("mode7::Parser::caret_down|row-fixed|after index", "reviewed", "Caret::index ends in limit_caret_pos, which clamps to [first visible, first visible + height - 1]; on a fixed page the buffer height equals the terminal height (R-FIXED-GRID: no grower reachable), so first visible = 0"),
   ("print_char|row-fixed|after home", "reviewed", "home = upper_left_position(): origin mode is only ever set by the ANSI parser, so y = first visible line, which is 0 on a fixed page (R-FIXED-GRID: the buffer never grows)"),
 ]
+
+PARITY = "the vector holds coordinate pairs (even length) and i < len/2, so 2i+1 < len (needs 2*(len/2) <= len, outside the difference-constraint domain)"
+POISON = "Mutex::lock fails only when the mutex is poisoned, i.e. after another thread already panicked while holding it: not an origin"
+EMBEDDED = "runs once on data embedded in the crate with include_bytes! / a built-in font name; not reachable with stream-controlled data"
+VIEWPORT = ("RIP_VIEWPORT (|v) accepts any rectangle: with a viewport that does not start at row 0 or that exceeds the 640x350 canvas "
+            "(e.g. |v0000ZZZZ) the flood-fill helpers index the canvas / the per-row line table (sized by the viewport height, indexed by absolute y) out of range")
+RULES["C20"] = [
+  # ---------------------------------------------------------------- IGS: genuine
+  ("execute_command|S1|bounds(len(parameters), (len(&*parameters) - 2))", "known", "IGS PolyLine with a point count of 0 (`G#z 0:`): parameters[len - 2] with len == 1"),
+  ("execute_command|S1|bounds(len(parameters), 0)", "known", "IGS TimeAPause (`G#t:`) reads parameters[0] without a length check"),
+  ("igs::paint::DrawExecutor::draw_polyline|S1|bounds(len(parameters), 0)", "known", "IGS PolyLine / polymarker with no points: parameters[0]"),
+  ("igs::paint::DrawExecutor::draw_polyline|S1|bounds(len(parameters), 1)", "known", "IGS PolyLine / polymarker with no points: parameters[1]"),
+  ("igs::paint::DrawExecutor::draw_poly|S1|bounds(len(parameters), 0)", "known", "IGS PolyFill with a point count of 0 (`G#f 0:`) and draw_border set: parameters[0]"),
+  ("igs::paint::DrawExecutor::draw_poly|S1|bounds(len(parameters), 1)", "known", "IGS PolyFill with a point count of 0: parameters[1]"),
+  ("igs::paint::DrawExecutor::fill_poly|S1|bounds(len(points), 1)", "known", "IGS PolyFill with a point count of 0 (`G#f 0:`): points[1] on an empty slice"),
+  ("igs::paint::DrawExecutor::get_pixel|S2|", "known", "IGS blit (GrabScreen screen->screen / screen->memory) with source coordinates outside the screen: get_pixel indexes the canvas unchecked"),
+  ("igs::paint::DrawExecutor::blit_memory_to_screen|S2|", "known", "IGS GrabScreen memory->screen with a source rectangle outside the stored region: screen_memory[offset] unchecked"),
+  ("igs::CommandExecutor>::get_picture_data|S2|index(&*self.pen_colors", "known", "IGS ColorSet accepts any colour number (`G#C 1,200:`), pixels drawn with it index the 16-entry pen table in get_picture_data"),
+  ("igs::paint::DrawExecutor::draw_line|S1|bounds(6, mask)", "known", "IGS line type 7 (user defined, LineType::UserDefined -> mask 6) indexes the 6-entry LINE_STYLE table"),
+  ("igs::paint::DrawExecutor::write_text|S4|unwrap(get_glyph(", "known", "IGS WriteText with a character the 8px font has no glyph for (any code point above 255): get_glyph(..).unwrap()"),
+  # ---------------------------------------------------------------- IGS: reviewed
+  ("igs::Parser as parsers::BufferParser>::print_char|S2|index(&*self.parsed_numbers, 4)", "reviewed", "LoopState::ReadParameter is only reached through ReadCommand, which pushes the fifth number; parsed_numbers shrinks only in ReadCommandStart, after which '&' restarts the loop state machine at Start"),
+  ("igs::Parser as parsers::BufferParser>::print_char|S4|unwrap(last_mut(", "reviewed", "loop_parameters is set to [[\"\"]] when ReadParameter is entered and only grows afterwards (outer and inner vectors)"),
+  ("unwrap(lock(&*deref(&*", "reviewed", POISON),
+  ("igs::Loop::next_step|S6|rem0((len(&*self.parameters) == 0))", "reviewed", "Loop::new receives a clone of loop_parameters, which is non-empty from the moment ReadParameter is entered"),
+  ("igs::Loop::next_step|S2s|remove(&p, 0)", "reviewed", "guarded by starts_with('+' / '-' / '!'): the string has a first (ASCII) character"),
+  ("execute_command|S2|index_mut(&*self.pen_colors, (*parameters[0] as usize))", "reviewed", "guarded by (0..=15).contains(&color); pen_colors always holds 16 entries (IGS_SYSTEM_PALETTE / IGS_PALETTE .to_vec(), never resized)"),
+  ("execute_command|S2|index(&*self.pen_colors, *(get((&*REGISTER_TO_PEN", "reviewed", "REGISTER_TO_PEN holds pen numbers 0..=15; pen_colors always holds 16 entries"),
+  ("igs::paint::DrawExecutor::draw_polyline|S1|bounds(len(parameters), (i + 1))", "reviewed", "i is even and < len, len is even at every call (2*points checked against the parameter count; polymarker tables), so i + 1 < len"),
+  ("igs::paint::DrawExecutor::draw_poly|S1|bounds(len(parameters), (i + 1))", "reviewed", "i is even and < len, len is even at every call (2*points checked against the parameter count; round_rect pushes pairs), so i + 1 < len"),
+  ("igs::paint::DrawExecutor::fill_poly|S1|bounds(len(points), (", "reviewed", PARITY + "; next_point < point_cnt likewise"),
+  ("igs::paint::DrawExecutor::fill_poly|S2|index(&edge_buffer", "reviewed", "edge_buffer receives one entry per counted intersection; the loop runs intersections/2 times reading j, j+1 with j = 0, 2, .."),
+  ("igs::paint::DrawExecutor::fill_poly|S6|div0(", "reviewed", "dy = y2 - y1 is used only when (y - y1) ^ (y - y2) < 0, i.e. the two differences have opposite signs, hence y1 != y2"),
+  ("igs::paint::DrawExecutor::fill_poly|S6|overflow:Div(", "reviewed", "|dy| >= 1 and the numerator is a product of screen-sized coordinate differences; dy == -1 with numerator i32::MIN needs coordinates near 2^31 that the decimal parameter parser cannot combine into MIN exactly on this path (dy2*dx with dx even)"),
+  ("igs::paint::DrawExecutor::fill_poly::{closure#0}|S4|unwrap(partial_cmp(", "reviewed", "partial_cmp on i32 is total"),
+  ("igs::paint::DrawExecutor::fill_pixel|S6|rem0(", "reviewed", "fill_pattern always points at one of the static, non-empty pattern tables"),
+  ("igs::paint::DrawExecutor::draw_poly_maker|S2|", "reviewed", "indices walk the constant polymarker tables, whose layout (count, then count*2 offsets per line) is self-consistent for all six marker types"),
+  ("igs::paint::DrawExecutor::write_text|S2|index(&clone(", "reviewed", "iy = floor(y / font_size.height * char_size.height) < char_size.height = number of glyph rows (y < font_size.height)"),
+  # ---------------------------------------------------------------- RIP: genuine
+  ("rip::commands::TextWindow as parsers::rip::Command>::parse|S4|unwrap(to_digit(ch, 36))", "known", "RIP_TEXT_WINDOW (|w) whose last character is not a base-36 digit: ch.to_digit(36).unwrap()"),
+  ("Rectangle::from_coords|S5|", "known", "RIP_TEXT_WINDOW (|w) / RIP_VIEWPORT (|v) with x0 > x1 or y0 > y1: assert!(x1 <= x2) in Rectangle::from_coords"),
+  ("rip::bgi::Bgi::set_palette|S1|", "known", "RIP_SET_PALETTE (|Q) with an entry >= 64 (two base-36 digits reach 1295): EGA_PALETTE[c]"),
+  ("rip::bgi::Bgi::set_palette_color|S1|", "known", "RIP_ONE_PALETTE (|a) with a colour value >= 64: EGA_PALETTE[color]"),
+  ("rip::bgi::Bgi::draw_poly|S1|bounds(len(points), 0)", "known", "RIP_POLYGON (|P) terminated before its first point (`!|P|`): draw_poly(&[]) reads points[0]"),
+  ("rip::bgi::Bgi::draw_poly_line|S1|bounds(len(points), 0)", "known", "RIP_POLYLINE (|l) terminated before its first point: draw_poly_line(&[]) reads points[0]"),
+  ("rip::bgi::Bgi::find_line|S2|", "known", VIEWPORT),
+  ("rip::bgi::Bgi::flood_fill|S2|", "known", VIEWPORT),
+  ("rip::bgi::already_drawn|S1|", "known", VIEWPORT),
+  ("rip::bgi::Bgi::out_text_xy|S2|index_mut(&*self.screen, pos)", "known", "RIP_TEXT_XY (|@) / RIP_TEXT (|T) with the default font at a position whose 8x8 cell reaches past the canvas: screen[pos] unchecked"),
+  ("rip::bgi::Bgi::add_button|S5|", "known", "RIP_BUTTON (|1U) with a label while the button style asks for a label orientation other than Center: todo!()"),
+  ("rip::bgi::Bgi::add_button|S2s|", "known", "RIP_BUTTON hotkey underlining slices the label by character index (&text[0..i], &text[i..=i]): not a char boundary after a multi-byte character"),
+  # ---------------------------------------------------------------- RIP: reviewed
+  ("rip::Parser::parse_parameter|S4|unwrap(as_mut(&*self.command))", "reviewed", "State::ReadParams is entered only through start_command, which stores command = Some(..) (R-RIP-CURSOR); every path that takes the command leaves ReadParams"),
+  ("as parsers::rip::Command>::parse|S4|unwrap(pop(&*self.", "reviewed", "for an even parameter index a 0 is pushed first; an odd index follows the even index of the same command, because the cursor is 0 when a command starts (R-RIP-CURSOR) and grows by one per accepted character"),
+  ("as parsers::rip::Command>::run|S2|index(&*self.points, (", "reviewed", PARITY),
+  ("rip::commands::LoadIcon as parsers::rip::Command>::run|S2|index(&planes", "reviewed", "planes holds 4*row bytes with row = ceil(width/8); x < width gives x/8 < row, so row*k + x/8 < 4*row for k <= 3"),
+  ("rip::commands::FileQuery as parsers::rip::Command>::run|S4|", "reviewed", "depends on the metadata of a file in the local icon cache (mtime availability / mtime before 1970), not on the stream"),
+  ("rip::Parser as parsers::BufferParser>::print_char|S2|index(&*(*self.fallback_parser", "reviewed", "guarded by the `parsed_numbers.is_empty() -> return` a few lines above (the Box deref hides the identity of the two places from the analysis)"),
+  ("DEFAULT_BITFONT as std::ops::Deref>::deref::__static_ref_initialize|S4|", "reviewed", EMBEDDED),
+  ("FONTS as std::ops::Deref>::deref::__static_ref_initialize|S4|", "reviewed", EMBEDDED),
+  ("rip::bgi::font::Font::load|S2|", "reviewed", EMBEDDED + " (Font::load is only called from the FONTS initialiser)"),
+  ("rip::bgi::FontType::get_font|S2|index(&*deref(&FONTS)", "reviewed", "FONTS is a lazy static vec! of exactly 11 fonts; indices 0..=10"),
+  ("rip::bgi::FillStyle::get_fill_pattern|S1|", "reviewed", "FillStyle has 13 variants with default discriminants 0..=12; DEFAULT_FILL_PATTERNS has 13 rows"),
+  ("rip::bgi::Bgi::bar_rect|S1|", "reviewed", "ypat = top % 8 with top >= 0 (the rectangle is the intersection with a viewport built from unsigned base-36 coordinates); every fill pattern, including the user pattern (DEFAULT_USER_PATTERN / RIP_FILL_PATTERN's 8 bytes), has 8 rows"),
+  ("rip::bgi::Bgi::fill_scan|S2|", "reviewed", "rows always comes from create_scan_rows() (fixed length >= 2); y < len - 2 gives y + 1 < len"),
+  ("rip::bgi::Bgi::fill_x|S6|rem0(", "reviewed", "line_pattern always holds 16 entries (get_line_pattern / set_line_pattern push exactly 16)"),
+  ("rip::bgi::Bgi::fill_y|S6|rem0(", "reviewed", "line_pattern always holds 16 entries (get_line_pattern / set_line_pattern push exactly 16)"),
+  ("rip::bgi::Bgi::line|S6|", "reviewed", "the divisions by ly_delta / lx_delta2 sit behind the `== 0` arms of the same if-chain; both are abs() values, never -1"),
+  ("rip::bgi::Bgi::out_text_xy|S2|index(&*(get_glyph(", "reviewed", "the default RIP font is the built-in 8x8 IBM VGA50 font: glyph.data has 8 rows, y < 8"),
+  ("rip::bgi::Bgi::put_image|S2|", "reviewed", "Image.data is filled by get_image with exactly width*height bytes (one push per pixel of the same two ranges)"),
+  ("rip::bgi::Bgi::rip_bezier|S2|", "reviewed", "targets receives coordinate pairs only (even length); j is even and < len, so j + 1 < len"),
+  ("rip::bgi::character::Character::draw|S1|", "reviewed", "size is Bgi.char_size, which set_text_style clamps to 1..=10 (graph_defaults sets 4); SCALE tables have 11 entries"),
+  ("rip::bgi::font::Font::get_text_size|S1|", "reviewed", "size is Bgi.char_size, which set_text_style clamps to 1..=10 (graph_defaults sets 4); SCALE tables have 11 entries"),
+] + RULES["C01"]
